@@ -295,7 +295,14 @@ def triggers(p, v):
 
 
 def with_triggers(sig, trig, symptom=""):
-    t = [x for x in trig if x != "value_global_reaches_recursive_fn" or UNRESOLVED.search(symptom)]
+    """only the triggers that can explain the symptom are attached (in a fixed order)"""
+    t = []
+    if "xfile_alias_of_global" in trig:                 # the alias is evaluated in the wrong file: any symptom
+        t.append("xfile_alias_of_global")
+    if "xfile_comptime_locals" in trig and (sig.startswith("output_differs") or "Error defining function" in symptom):
+        t.append("xfile_comptime_locals")
+    if "value_global_reaches_recursive_fn" in trig and UNRESOLVED.search(symptom):
+        t.append("value_global_reaches_recursive_fn")
     return sig + ("|trigger=" + ",".join(t) if t else "")
 
 
@@ -307,7 +314,7 @@ def judge_variant(canon, var, kind, facts, trig=()):
         return "inconc", None, f"{kind}: {var.infra}"
     c = var.c
     if c.internal_error:
-        return "viol", {"key": "internal_error", "sig": with_triggers("internal_error|" + c.panic_sig(), trig),
+        return "viol", {"key": "internal_error", "sig": with_triggers("internal_error|" + c.panic_sig(), trig, c.panic_sig()),
                         "what": f"the canonical layout is accepted, layout {desc} ends in an internal compiler error: {c.brief()[:300]}",
                         "witness": wit(canon, var, desc)}, None
     if c.rejected:
